@@ -19,10 +19,10 @@ YW = Call(r"may::yield_now::yield_with", transitive=False)
 def check(ctx):
     # ---- Park.wait_co slot
     slot_waiter(ctx, SUB, ao("store", P + ".wait_co"), atomic("load", P + ".state"),
-                call_true(A("load"), P + ".state"), Call(re.escape(P) + "::fast_wake_up"),
+                call_true(A("load"), P + ".state"), ao("take", P + ".wait_co"),
                 "park-slot", "Park::subscribe", "state.load() is true")
-    ctx.order(P + "::fast_wake_up", ao("take", P + ".wait_co"), Call(r"may::coroutine_impl::run_coroutine"), "take-then-run",
-              "the coroutine that is resumed is the one taken from the slot (single owner)", rule="R-SLOT")
+    ctx.order(SUB, ao("take", P + ".wait_co"), Call(r"may::coroutine_impl::run_coroutine|may::scheduler::Scheduler::schedule", transitive=False), "take-then-run",
+              "the coroutine that subscribe resumes itself is the one taken back from the slot (single owner)", rule="R-SLOT")
     ctx.order(P + "::wake_up", ao("take", P + ".wait_co"), Call(r"may::coroutine_impl::run_coroutine|may::scheduler::Scheduler::schedule"),
               "take-then-resume", "the coroutine that is resumed is the one taken from the slot (single owner)", rule="R-SLOT")
     slot_waker(ctx, P + "::unpark_impl", atomic("swap", P + ".state"), Call(re.escape(P) + "::wake_up"), "unpark",
@@ -175,11 +175,11 @@ def check(ctx):
         chk = ctx.an.sites(f, Call(r"(std|core)::option::Option::is_some_and", transitive=False), "must")
         arm = ctx.an.sites(f, Call(r"may::scheduler::Scheduler::add_timer", transitive=True), "may")
         okd = bool(st) and bool(chk) and bool(arm) and all(c in ctx.an.reach(f, [q for s0 in st for q in ctx.an.after(f, s0)]) for c in chk)
-        cl = [g for g in ctx.prog.closures_of(f) if ctx.an.may(g, Call(r"may::timeout_list::now", transitive=False))]
-        okd = okd and len(cl) >= 2   # the arming closure records the deadline, the re-check closure compares it
         ctx.ob("R-ORDER", SUB, "deadline-recheck/after-publish", okd,
                "Park::subscribe records the deadline when arming and re-checks it after publishing the coroutine (a timer that fired in between found the slot empty)" if okd else
                "Park::subscribe arms the timer before publishing the coroutine and has no deadline re-check after the store: a subscriber stalled ≥ timeout loses the timeout for good", f.where())
+    shared.park_deadline_sampled_before_arm(ctx)
+    shared.no_nested_run_under_guard(ctx)
     ctx.who_may_call(r"generator::(gen_impl|yield_)::co_set_para|generator::co_set_para", {"may::yield_now::yield_with"},
                      "self-injection", "only yield_with's cancelled short-circuit injects a result into the running coroutine")
     ctx.guarded("may::yield_now::yield_with", Call(r"generator::(\w+::)*co_set_para"), call_true(re.escape(C) + "::is_canceled"),
